@@ -28,6 +28,7 @@ from multiprocessing import Pool
 from .. import common, metamorph, pipecheck, scenes
 
 STAGES = ['fs', 'fg', 'fl', 'q']
+KERNEL_CLAUSE = 'under concurrency a chunk hands np.percentile the arguments of its isolated run (frame theorem C13_frame)'
 
 
 def make_chunks(seed, k, n):
@@ -35,12 +36,13 @@ def make_chunks(seed, k, n):
     out = []
     for j in range(n):
         rng = random.Random(f'{seed}:c13:{k}:{j}')
-        fam = rng.choice(['split', 'split', 'chain', 'synth', 'multi'])
+        fam = rng.choice(['split', 'split', 'chain', 'synth', 'multi', 'drift', 'split'])
         rows, prms, _ = pipecheck.gen_scene(seed, 1000 * k + j, fam)
         prms = dict(prms)
         prms.setdefault('MAX_HITS_OKTA0', rng.choice([0, 1, 2, 3, 4]))
         prms.setdefault('MSA', rng.choice([None, 3000 + 1000 * j, 20000]))
-        prms.setdefault('BASE_LVL_HEIGHT_PERC', rng.choice([0, 5, 10 + 10 * j]))
+        prms.setdefault('BASE_LVL_HEIGHT_PERC', rng.choice([0, 5, 10 + 10 * j, [5, 100, 50][j % 3]]))
+        prms.setdefault('BASE_LVL_LOOKBACK_PERC', [100, 10, 40][j % 3])
         # distinct values at every depth of the parameter tree (depth-3 leaves included)
         lay = dict(prms.get('LAYERING_PRMS', {}))
         kw = dict(lay.get('gmm_kwargs', {}))
@@ -109,10 +111,52 @@ def frame_of(rows):
     return df
 
 
+_KLOG = {}     # thread ident -> list of digests of the arguments this thread handed to np.percentile
+
+
+def _install_kernel_log():
+    """What a chunk asks of the numerical kernels is part of what it computes: the arguments every thread passes to
+    `np.percentile` (the values looked back over and the percentage - i.e. the base-level parameters in force) are
+    logged per thread, so that a chunk working with another chunk's parameters shows even where the final tables happen
+    to agree."""
+    if getattr(np.percentile, '_c13_logged', False):
+        return
+    orig = np.percentile
+
+    def percentile(a, q, *args, **kwargs):
+        log = _KLOG.get(threading.get_ident())
+        if log is not None:
+            try:
+                log.append(hashlib.sha1(np.asarray(a, dtype=float).tobytes() + repr(float(q)).encode()).hexdigest()[:12])
+            except Exception:
+                log.append('unhashable')
+        return orig(a, q, *args, **kwargs)
+    percentile._c13_logged = True
+    np.percentile = percentile
+
+
+def logged_run(amp, rows, prms):
+    """ampycloud.run on the caller's table with per-call parameters, on this thread; returns (chunk, kernel log)."""
+    _install_kernel_log()
+    me = threading.get_ident()
+    _KLOG[me] = []
+    try:
+        c = amp.run(frame_of(rows), prms=dict(prms))
+    finally:
+        log = _KLOG.pop(me, [])
+    return c, log
+
+
 def isolated(rows, prms):
     with warnings.catch_warnings():
         warnings.simplefilter('ignore')
-        return metamorph.observe(scenes.run_scene(rows, prms, frame=frame_of(rows)))
+        ref = metamorph.observe(scenes.run_scene(rows, prms, frame=frame_of(rows)))
+        try:
+            import ampycloud as amp
+            ref['kernel_args'] = logged_run(amp, rows, prms)[1]
+        except Exception as e:
+            ref['kernel_args'] = f'{type(e).__name__}'
+        return ref
 
 
 def apply(chunk, op):
@@ -250,8 +294,9 @@ def _threads(args):
                 sys.settrace(baton.tracer(i))
             with warnings.catch_warnings():
                 warnings.simplefilter('ignore')
-                c = amp.run(frame_of(specs[i][0]), prms=dict(specs[i][1]))
+                c, klog = logged_run(amp, specs[i][0], specs[i][1])
                 ob = observe_chunk(c)
+                ob['kernel_args'] = klog
             results[i] = ob
         except Exception as e:
             errors[i] = f'{type(e).__name__}: {e}'
@@ -342,7 +387,8 @@ def _systematic(args):
                 try:
                     with warnings.catch_warnings():
                         warnings.simplefilter('ignore')
-                        out['a'] = observe_chunk(amp.run(frame_of(specs[a][0]), prms=dict(specs[a][1])))
+                        c_, kl_ = logged_run(amp, specs[a][0], specs[a][1])
+                        out['a'] = dict(observe_chunk(c_), kernel_args=kl_)
                 except Exception as e:
                     out['a'] = f'{type(e).__name__}: {e}'
                 finally:
@@ -355,7 +401,8 @@ def _systematic(args):
             try:
                 with warnings.catch_warnings():
                     warnings.simplefilter('ignore')
-                    out['b'] = observe_chunk(amp.run(frame_of(specs[b][0]), prms=dict(specs[b][1])))
+                    c_, kl_ = logged_run(amp, specs[b][0], specs[b][1])
+                    out['b'] = dict(observe_chunk(c_), kernel_args=kl_)
             except Exception as e:
                 out['b'] = f'{type(e).__name__}: {e}'
             resume.set()
@@ -366,6 +413,7 @@ def _systematic(args):
                 if got != ref:
                     what = got if not isinstance(got, dict) else [key for key in got if got[key] != ref[key]]
                     bad.append((who, [os.path.basename(loc[0]), loc[1]], idx, what))
+    bad.sort(key=lambda b_: b_[3] == ['kernel_args'])       # differences in the results first
     return {'k': k, 'n': 2 * len(locs), 'bad': bad[:3]}
 
 
@@ -414,9 +462,15 @@ def run(chk):
         for j in range(r['n']):
             chk.case(('systematic', id(r), j))
         for who, loc, idx, what in r['bad']:
-            chk.spec_fail('C13.threads-equal-isolated-run',
-                          f'thread {who} paused before {loc[0]}:{loc[1]} while the other ran to completion: chunk {idx}: {what}',
-                          {'gen': {'seed': chk.seed, 'k': r['k'], 'mode': 'systematic'}, 'loc': loc, 'who': who})
+            rp_ = {'gen': {'seed': chk.seed, 'k': r['k'], 'mode': 'systematic'}, 'loc': loc, 'who': who}
+            msg_ = f'thread {who} paused before {loc[0]}:{loc[1]} while the other ran to completion: chunk {idx}: {what}'
+            if what == ['kernel_args']:
+                # same tables and messages, but other questions put to the numerical kernels than in isolation: the tie
+                # with the frame theorem (a stage touches its own chunk and reads its own snapshot) is broken; whether the
+                # property fails with it is for the search to show
+                chk.mismatch(KERNEL_CLAUSE, msg_, rp_)
+            else:
+                chk.spec_fail('C13.threads-equal-isolated-run', msg_, rp_)
     for r in inter:
         chk.count('interleavings', r['count'])
         for j in range(r['count']):
@@ -430,8 +484,12 @@ def run(chk):
         total_sw += r['switches'] or 0
         chk.case(('threads', r['k'], r['mode']), sample={'k': r['k'], 'mode': r['mode'], 'switches': r['switches']} if r['k'] < 104 else None)
         for i, what in r['bad']:
-            chk.spec_fail('C13.threads-equal-isolated-run', f"{r['mode']} threads, set {r['k']}: chunk {i}: {what}",
-                          {'gen': {'seed': chk.seed, 'k': r['k'], 'mode': r['mode']}})
+            if what == ['kernel_args']:
+                chk.mismatch(KERNEL_CLAUSE, f"{r['mode']} threads, set {r['k']}: chunk {i}: {what}",
+                             {'gen': {'seed': chk.seed, 'k': r['k'], 'mode': r['mode']}})
+            else:
+                chk.spec_fail('C13.threads-equal-isolated-run', f"{r['mode']} threads, set {r['k']}: chunk {i}: {what}",
+                              {'gen': {'seed': chk.seed, 'k': r['k'], 'mode': r['mode']}})
     chk.extra['baton_switches'] = total_sw
     chk.exhaustive = True
     chk.explanation = ('Stage-granularity interleavings are enumerated exhaustively and the frame/projection theorems cover them '
